@@ -55,6 +55,11 @@ def table : List Entry := [
   ⟨"fs.cp", "CommandFS", "DEMON_COMMAND_FS_COPY", fun ps => match ps with | [a, b] => do pure [← wstr a, ← wstr b] | _ => none⟩,
   ⟨"fs.mv", "CommandFS", "DEMON_COMMAND_FS_MOVE", fun ps => match ps with | [a, b] => do pure [← wstr a, ← wstr b] | _ => none⟩,
   ⟨"fs.pwd", "CommandFS", "DEMON_COMMAND_FS_GET_PWD", fun ps => if ps.isEmpty then some [] else none⟩,
+  -- upload: the path (the operator's client sends it with a terminator of its own), then the id of the in-memory file
+  -- that carries the content (checked separately: `uploadOk`)
+  ⟨"fs.upload", "CommandFS", "DEMON_COMMAND_FS_UPLOAD", fun ps => match ps with
+    | [p, _] => (wstr p).map fun w => match w with | .bytes b => [.bytes (b ++ [0, 0])] | v => [v]
+    | _ => none⟩,
   ⟨"proc.kill", "CommandProc", "DEMON_COMMAND_PROC_KILL", fun ps => match ps with | [p] => (i32 p).map ([·]) | _ => none⟩,
   ⟨"proc.modules", "CommandProc", "DEMON_COMMAND_PROC_MODULES", fun ps => match ps with | [p] => (i32 p).map ([·]) | _ => none⟩,
   ⟨"proc.grep", "CommandProc", "DEMON_COMMAND_PROC_GREP", fun ps => match ps with | [p] => (wstr p).map ([·]) | _ => none⟩,
@@ -106,8 +111,35 @@ def taskOk (e : Entry) (params : List Bytes) (taskId : Nat) (t : Task) : Bool :=
   | some cid, some ks, some want =>
     t.command == cid && t.requestId == taskId % 4294967296 &&
       (match demonRead ks t.body with
-       | some (vs, _) => vs == want
+       | some (vs, _) => vs.take want.length == want     -- (an upload's last read, the id of its in-memory file, is checked by `uploadOk`)
        | none => false)
+  | _, _, _ => false
+
+/-- the in-memory file a task refers to, as the Demon assembles it from the `COMMAND_MEM_FILE` tasks that precede
+    the task (CommandMemFile: id, total size, chunk): `none` when no chunk with that id was delivered -/
+def memFile (kinds : List CKind) (memCmd id : Nat) (ts : List Task) : Option (Nat × Bytes) :=
+  let chunks := ts.filterMap fun t =>
+    if t.command == memCmd then
+      match demonRead kinds t.body with
+      | some ([.int32 i, .int64 sz, .bytes b], _) => if i == id then some (sz, b) else none
+      | _ => none
+    else none
+  match chunks with
+  | [] => none
+  | (sz, _) :: _ => some (sz, (chunks.map (·.2)).flatten)
+
+/-- Spec of an upload: the FS task names the operator's path and an in-memory file that was delivered before it,
+    complete, with exactly the operator's content - also when the content is empty -/
+def uploadOk (content : Bytes) (ts : List Task) : Bool :=
+  match ts.getLast?, (Gen.DemonHandlers.reads.find? (fun r => r.1 == "CommandMemFile" && r.2.1 == "")).bind (fun r => r.2.2.mapM kindOf),
+        Gen.Consts.demon.lookup "DEMON_COMMAND_MEM_FILE" with
+  | some t, some mk, some memCmd =>
+    match demonRead [.int32, .bytes, .int32] t.body with
+    | some ([_, _, .int32 id], _) =>
+      match memFile mk memCmd id ts.dropLast with
+      | some (sz, data) => sz == content.length && data == content
+      | none => false
+    | _ => false
   | _, _, _ => false
 
 end Havoc.TaskTable
